@@ -98,7 +98,10 @@ def _strategies():
     meth = st.fixed_dictionaries({"k": st.just("meth"), "name": small, "sig": small, "doc": st.integers(0, 1)})
     cattr = st.fixed_dictionaries({"k": st.just("cattr"), "name": small, "val": value})
     ncls = st.fixed_dictionaries({"k": st.just("ncls"), "name": st.integers(0, 1), "body": st.lists(st.one_of(meth, cattr), min_size=1, max_size=3)})
-    cmem = weighted((meth, 3), (cattr, 3), (ncls, 1))
+    cimp = st.fixed_dictionaries(
+        {"k": st.just("cimp"), "name": st.integers(0, 1), "mod": small, "pick": small, "form": st.sampled_from(["name", "name", "name", "missing_mod"])}
+    )
+    cmem = weighted((meth, 3), (cattr, 3), (ncls, 1), (cimp, 1))
     cls = st.fixed_dictionaries(
         {
             "k": st.just("cls"),
@@ -169,6 +172,7 @@ def _strategies():
             "where": st.just("dead"),
             "arg": small,
             "hidden": st.sampled_from([True, True, False]),  # prefer public-looking objects below an empty __all__
+            "focus": st.sampled_from(["any", "any", "cimp"]),  # prefer imports written inside a class body
             "val": value,
         }
     )
@@ -362,6 +366,24 @@ def analyse(case: dict) -> dict:
         classes.append("pkg:public-wildcard-reexport")
     if any(k_ == "cls" and opkg.ent[par][0] == "cls" for _p, (k_, _n, par) in opkg.ent.items() if par):
         classes.append("pkg:nested-class")
+    cimps = [p_ for p_, (k_, _n, par) in opkg.ent.items() if k_ == "imp" and par and opkg.ent[par][0] == "cls"]
+    if any(opkg.ent[p_][2] in ed.sure.tags for p_ in cimps):
+        classes.append("pkg:class-level-import-in-public-class")
+    for r in applied:
+        if r["op"] in M.INCOMPAT_OPS and r["ent"] in cimps:
+            classes.append(f"edit-class-level-import:{r['op']}:{r['loc']}")
+    twin_classes = set()
+    for p_, (k_, n_, _par) in opkg.ent.items():
+        if k_ == "cls" and len(n_["bases"]) > 1:
+            fins = [opkg.final(f"{opkg.module_of(p_)}.{b}") for b in n_["bases"]]
+            shorts = [f.rsplit(".", 1)[1] for f in fins if f]
+            if len(set(shorts)) < len(shorts):
+                twin_classes.add(p_)
+    if twin_classes:
+        classes.append("pkg:bases-sharing-a-short-name")
+    for e in expectations:
+        if e["op"] == "rmbase" and e["ent"] in twin_classes:
+            classes.append("expect:rmbase:bases-sharing-a-short-name")
     del statuses
     n_inc = sum(1 for r in applied if not compatible(r))
     n_comp = len(applied) - n_inc
